@@ -379,6 +379,104 @@ func c16BuildLongRuns(tier string) core.Source {
 	}}
 }
 
+// c16BuildMulti: several files go through the delta path in ONE run (the
+// sender's per-file search state must not carry over from one file to the
+// next): identical-but-touched files cost nothing, edited ones stay within
+// the bound, whatever came before them in the same session.
+func c16BuildMulti(tier string) core.Source {
+	drive.Quiet()
+	type cs struct {
+		arr   string
+		sizes []int
+	}
+	var cases []cs
+	for _, arr := range []string{drive.LibPull, drive.LibPush} {
+		cases = append(cases, cs{arr, []int{1500000, 1500001, 900000, 28000, 1200000}})
+		if tier == "thorough" {
+			cases = append(cases, cs{arr, []int{6 << 20, 5<<20 + 3, 4 << 20, 7<<20 + 1}})
+		}
+	}
+	return core.FuncSource{N: len(cases), F: func(i int) core.Result {
+		c := cases[i]
+		res := core.Result{Case: fmt.Sprintf("real generator, one %s session with %d files of %v bytes: identical-but-touched and edited files alternate", c.arr, len(c.sizes), c.sizes)}
+		var src, dst tm.Tree
+		type want struct {
+			name     string
+			inserted int
+			edits    int
+			B        int
+		}
+		var wants []want
+		for k, n := range c.sizes {
+			basis := genData(famHash, n, uint32(600+k))
+			target, ins, eds := basis, 0, 0
+			if k%2 == 1 {
+				// an unaligned insertion in the middle
+				add := genData(famHash, 333, uint32(700+k))
+				target = append(append(append([]byte{}, basis[:n/2+7]...), add...), basis[n/2+7:]...)
+				ins, eds = len(add), 1
+			}
+			name := fmt.Sprintf("f%d", k)
+			src = append(src, tm.File(name, target, 0o644, tm.Past))
+			dst = append(dst, tm.File(name, basis, 0o644, tm.Past-99))
+			wants = append(wants, want{name, ins, eds, int(c16RealBlockLen(n))})
+		}
+		sc := &syncCase{Arr: c.arr, Args: []string{"-rt"}, Form: "contents", Rec: true, Src: src, Dst: dst}
+		sr, err := sc.run(false)
+		defer cleanup(sr.Dir)
+		if err != nil {
+			res.Inconcl = err.Error()
+			return res
+		}
+		cnt(&res, "transitions", 1)
+		cnt(&res, "traces_validated_against_impl", 1)
+		if !sr.Out.OK() {
+			res.Fail = core.Fail("session_failed", sr.Out.ErrString())
+			return res
+		}
+		var responses []peer.Response
+		if c.arr == drive.LibPull {
+			tap, err := peer.ParsePull(sr.Out.S2C, rp.ListOpts{}, false, false)
+			if err != nil {
+				res.Inconcl = "tap: " + err.Error()
+				return res
+			}
+			responses = tap.Responses
+		} else {
+			tap, err := peer.ParsePush(sr.Out.C2S, rp.ListOpts{}, false, false, false)
+			if err != nil {
+				res.Inconcl = "tap: " + err.Error()
+				return res
+			}
+			responses = tap.Responses
+		}
+		if len(responses) != len(wants) {
+			res.Fail = core.Fail("not_requested", fmt.Sprintf("%d responses for %d files", len(responses), len(wants)))
+			return res
+		}
+		srcSnap, _ := tm.Snapshot(filepath.Join(sr.Dir, "src"), false)
+		for k, w := range wants {
+			cnt(&res, "states", 1)
+			if a, b := sr.After.Find(w.name), srcSnap.Find(w.name); a == nil || b == nil || a.Sum != b.Sum {
+				res.Fail = core.Fail("wrong_reconstruction", w.name)
+				return res
+			}
+			lit := int(responses[k].LiteralBytes())
+			bound := w.inserted + 3*w.B*w.edits + w.B
+			if w.edits == 0 {
+				bound = 0
+			}
+			if lit > bound {
+				res.Fail = core.Fail("too_much_literal_data", fmt.Sprintf("file %d of the session (%s, %d bytes): %d literal bytes, bound %d (inserted %d, B=%d)", k, w.name, c.sizes[k], lit, bound, w.inserted, w.B), "edits", fmt.Sprint(w.edits), "part", "multi")
+				return res
+			}
+		}
+		res.Nontrivial = true
+		res.Outcome = "ok/multi"
+		return res
+	}}
+}
+
 // c16BuildReal: whole sessions with the real generator; literal bytes are
 // counted by the wire tap.
 func c16BuildReal(tier string) core.Source {
@@ -481,7 +579,7 @@ func init() {
 	core.Register(&core.Prop{
 		ID:    "C16",
 		Level: "model_checking",
-		Rule: "shifts: target = s fresh bytes + basis for every s in 0..B (B in {8,32,700}, basis 40 blocks + remainder) served by the real sender against reference-computed sums; edits: every edit script of depth <=2 over {insert,delete,replace} x 5 lengths x 9 offsets, plus identical file, prepend, append and all 24 permutations of 4 blocks; long-runs: one or two inserted / replaced / prepended runs of 8 lengths around the sender's flush threshold and read window (256 KiB-1 .. 3*256 KiB+2B+1) at 4 positions of a 780 KiB basis, each followed by more than one chunk of known data; real: whole lib-pull sessions with the real generator's block size (all single edits plus deletions of 1/2, 1/3, 3/5 and 9/10 of the file) and the literal bytes counted by a wire tap. " +
+		Rule: "shifts: target = s fresh bytes + basis for every s in 0..B (B in {8,32,700}, basis 40 blocks + remainder) served by the real sender against reference-computed sums; edits: every edit script of depth <=2 over {insert,delete,replace} x 5 lengths x 9 offsets, plus identical file, prepend, append and all 24 permutations of 4 blocks; long-runs: one or two inserted / replaced / prepended runs of 8 lengths around the sender's flush threshold and read window (256 KiB-1 .. 3*256 KiB+2B+1) at 4 positions of a 780 KiB basis, each followed by more than one chunk of known data; real: whole lib-pull sessions with the real generator's block size (all single edits plus deletions of 1/2, 1/3, 3/5 and 9/10 of the file) and the literal bytes counted by a wire tap; multi: five (thorough also four larger) files, alternately identical-but-touched and edited, through the delta path of ONE pull / push session, each judged by the same bound. " +
 			"oracle: stream denotes the target and literal bytes <= inserted + 3B per edit + B (0 for identical files and block permutations). states/transitions = requests judged; non-trivial = case with at least one edit",
 		Assum: []string{"counter-hash content has no accidental repeated blocks", "bound slack 3B per edit (an edit spoils at most the two partial blocks around it) + B for the remainder block"},
 		Parts: func(tier string) []core.Part {
@@ -490,6 +588,7 @@ func init() {
 				{Name: "edits", Build: c16BuildEdits},
 				{Name: "long-runs", Build: c16BuildLongRuns},
 				{Name: "real", Build: c16BuildReal},
+				{Name: "multi", Build: c16BuildMulti},
 			}
 		},
 	})
